@@ -903,7 +903,7 @@ func c20SDK(c *Ctx) {
 			"traceidratio":             {"TraceIDRatioBased(1.0)", "parseTraceIDRatio(samplerArg)"},
 			"parentbased_always_on":    {"ParentBased(AlwaysSample())", "ParentBased(AlwaysSample())"},
 			"parentbased_always_off":   {"ParentBased(NeverSample())", "ParentBased(NeverSample())"},
-			"parentbased_traceidratio": {"ParentBased(TraceIDRatioBased(1.0))", "ParentBased(ratio)"},
+			"parentbased_traceidratio": {"ParentBased(TraceIDRatioBased(1.0))", "ParentBased(parseTraceIDRatio(samplerArg)#0)"},
 			"nonsense":                 {"nil+err", "nil+err"},
 		}
 		var names []string
@@ -926,9 +926,29 @@ func c20SDK(c *Ctx) {
 					return nil, false
 				}
 				var got []string
-				for x := range g.ReachUnder(env) {
+				seenU := g.ReachUnder(env)
+				// the sampler expression with its variable operands replaced by what they hold on this path: ParentBased(root) with
+				// root defined as the first result of parseTraceIDRatio(arg) renders as ParentBased(parseTraceIDRatio(arg)#0)
+				render := func(e ast.Expr, at *GNode) string {
+					call, isC := unparen(e).(*ast.CallExpr)
+					if !isC || len(call.Args) != 1 {
+						return exprStr(e)
+					}
+					if _, isID := unparen(call.Args[0]).(*ast.Ident); !isID {
+						return exprStr(e)
+					}
+					r := g.ResolveUnder(env, seenU, call.Args[0], at)
+					inner := exprStr(r)
+					if rc, isRC := unparen(r).(*ast.CallExpr); isRC {
+						if tup, isT := tinfo.TypeOf(rc).(*types.Tuple); isT && tup.Len() > 1 {
+							inner += "#0"
+						}
+					}
+					return exprStr(call.Fun) + "(" + inner + ")"
+				}
+				for x := range seenU {
 					if rs, ok := x.N.(*ast.ReturnStmt); ok && len(rs.Results) == 2 {
-						d := exprStr(rs.Results[0])
+						d := render(rs.Results[0], x)
 						if !isNilIdent(tinfo, rs.Results[1]) && d == "nil" {
 							d += "+err"
 						}
@@ -946,37 +966,138 @@ func c20SDK(c *Ctx) {
 	if fn := c.Fn(tx, "R5", "parseTraceIDRatio"); fn != nil {
 		g := tx.FG(fn)
 		good, n := true, 0
+		// the parsed value: first result of strconv.ParseFloat
+		var parsed, parseErr types.Object
+		inspectNoLit(fn.Body(), func(nd ast.Node) bool {
+			if as, ok := nd.(*ast.AssignStmt); ok && len(as.Lhs) == 2 && len(as.Rhs) == 1 {
+				if call, isC := unparen(as.Rhs[0]).(*ast.CallExpr); isC && isCallTo(tinfo, call, "strconv.ParseFloat") {
+					parsed, parseErr = objOf(tinfo, as.Lhs[0]), objOf(tinfo, as.Lhs[1])
+				}
+			}
+			return true
+		})
+		ratioArg := func(e ast.Expr) ast.Expr {
+			call, ok := unparen(e).(*ast.CallExpr)
+			if !ok || len(call.Args) != 1 {
+				return nil
+			}
+			if cf := callee(tinfo, call); cf == nil || cf.Name() != "TraceIDRatioBased" {
+				return nil
+			}
+			return call.Args[0]
+		}
+		isOne := func(e ast.Expr, env Env) bool {
+			v, known := evalConst(tinfo, e, env)
+			if !known {
+				return false
+			}
+			f, _ := constant.Float64Val(constant.ToFloat(v))
+			return f == 1.0
+		}
 		for _, x := range g.Nodes {
 			rs, ok := x.N.(*ast.ReturnStmt)
 			if !ok || len(rs.Results) != 2 {
 				continue
 			}
 			n++
-			isErr := !isNilIdent(tinfo, rs.Results[1])
-			s := exprStr(rs.Results[0])
-			if isErr && s != "TraceIDRatioBased(1.0)" {
+			a := ratioArg(rs.Results[0])
+			if a == nil {
 				good = false
+				continue
 			}
-			if !isErr && s != "TraceIDRatioBased(v)" {
-				good = false
+			ev, isVar := objOf(tinfo, rs.Results[1]).(*types.Var)
+			switch {
+			case isNilIdent(tinfo, rs.Results[1]):
+				// success: the parsed value itself
+				if parsed == nil || !sameVar(tinfo, a, parsed) {
+					good = false
+				}
+			case isVar && !ev.IsField() && definedIn(tinfo, fn.Body(), ev):
+				// one return for all outcomes: with the error set the ratio is 1.0, without it the parsed value
+				for _, set := range []bool{true, false} {
+					env := func(e ast.Expr) (constant.Value, bool) {
+						if be, isB := unparen(e).(*ast.BinaryExpr); isB && (be.Op == token.NEQ || be.Op == token.EQL) && isNilIdent(tinfo, be.Y) && sameVar(tinfo, be.X, ev) {
+							return constant.MakeBool((be.Op == token.NEQ) == set), true
+						}
+						return nil, false
+					}
+					seen := g.ReachUnder(env)
+					if !seen[x] {
+						continue
+					}
+					r := g.ResolveUnder(env, seen, a, x)
+					if set && !isOne(r, g.withLocals(env)) {
+						good = false
+					}
+					if !set && (parsed == nil || !sameVar(tinfo, r, parsed)) {
+						// the parsed variable itself, or an unresolved use of it
+						if !(parsed != nil && sameVar(tinfo, a, parsed) && !isOne(r, g.withLocals(env))) {
+							good = false
+						}
+					}
+				}
+			default:
+				// an error value: the fallback ratio
+				if !isOne(a, g.withLocals(func(ast.Expr) (constant.Value, bool) { return nil, false })) {
+					good = false
+				}
 			}
 		}
-		// bounds
+		_ = parseErr
+		// bounds: a test `< 0` and a test `> 1` on the parsed value, each leading to an error outcome (an error return, or the
+		// error variable set)
 		lo, hi := false, false
-		inspectNoLit(fn.Body(), func(nd ast.Node) bool {
-			if be, ok := nd.(*ast.BinaryExpr); ok {
-				if v, isC := constFloat(tinfo, be.Y); isC {
-					if be.Op == token.LSS && v == 0 {
-						lo = true
+		for _, x := range g.Nodes {
+			for _, e := range x.Succs {
+				var which *bool
+				if edgeImplies(e, func(cnd ast.Expr, pol int) bool {
+					l, op, r, ok := cmpNorm(cnd, pol)
+					if !ok || parsed == nil || !sameVar(tinfo, l, parsed) {
+						return false
 					}
-					if be.Op == token.GTR && v == 1 {
-						hi = true
+					v, isC := constFloat(tinfo, r)
+					if isC && op == token.LSS && v == 0 {
+						which = &lo
+						return true
+					}
+					if isC && op == token.GTR && v == 1 {
+						which = &hi
+						return true
+					}
+					return false
+				}) && which != nil {
+					// no success (nil error literal) return from here without the error variable having been set
+					s, _ := g.ReachFromEdge(e, func(y *GNode) bool {
+						as, isAs := y.N.(*ast.AssignStmt)
+						if !isAs || len(as.Lhs) != len(as.Rhs) {
+							return false
+						}
+						for i, l := range as.Lhs {
+							if v, isV := objOf(tinfo, l).(*types.Var); isV && types.Identical(v.Type(), types.Universe.Lookup("error").Type()) && g.constFlag(as.Rhs[i]) == fvNonNil {
+								return true
+							}
+						}
+						return false
+					})
+					okEdge := true
+					for y := range s {
+						if rs, isR := y.N.(*ast.ReturnStmt); isR && len(rs.Results) == 2 {
+							// reached without the error having been set: a nil literal, or the (still unset) local error variable
+							if isNilIdent(tinfo, rs.Results[1]) {
+								okEdge = false
+							}
+							if lv := objOf(tinfo, rs.Results[1]); lv != nil && definedIn(tinfo, fn.Body(), lv) {
+								okEdge = false
+							}
+						}
+					}
+					if okEdge {
+						*which = true
 					}
 				}
 			}
-			return true
-		})
-		c.Check(good && n == 4 && lo && hi, "R5", "sdk/trace|parseTraceIDRatio|invalid / negative / >1 ⇒ ratio 1.0 with the error; valid ⇒ that ratio", at(tx.M, fn.Pos()), "documented fallback", "an invalid sampler argument no longer falls back to ratio 1.0 with an error")
+		}
+		c.Check(good && n >= 1 && lo && hi, "R5", "sdk/trace|parseTraceIDRatio|invalid / negative / >1 ⇒ ratio 1.0 with the error; valid ⇒ that ratio", at(tx.M, fn.Pos()), "documented fallback", "an invalid sampler argument no longer falls back to ratio 1.0 with an error")
 	}
 	einfo := ex.Pkg.TypesInfo
 	for _, nm := range []string{"firstInt", "IntEnvOr"} {
